@@ -1,10 +1,10 @@
-import CallbagModel.Core
+import CallbagModel.EnvX
 /-!
 # The monitor on raw traces
 
-`monRun` folds a chronological list of boundary events through the conformance automaton (`legalIn`, `legalRet`) and
+`monRun` folds a chronological list of boundary events through the conformance automaton (`legalInX`, `legalRet`) and
 the ghost monitor (`G.onIn`, `G.onOut`, `G.onRetO`) *without any machine*: it is what judges traces recorded from the
-real crate.  `Inv/MonSound.lean` proves that on a model execution it computes exactly the ghost carried by `Sys`.
+real crate.  `cross` counts the calls that are legal only by the cross-sink clause of `EnvX.lean` (classification of histories).
 -/
 namespace Cb
 
@@ -19,6 +19,7 @@ structure MonSt (β : Type) where
   envOk : Bool := true       -- the environment has been conformant so far
   shapeOk : Bool := true     -- the event sequence is well bracketed
   panicked : Bool := false
+  cross : Nat := 0           -- environment calls legal only as cross-sink calls (EnvX.lean)
 
 def opHeight {β} : List (CFrame β) → Nat
   | [] => 0
@@ -34,7 +35,9 @@ def monStep {α β} (sh : Shape) (m : MonSt β) (e : Ev α β) : MonSt β :=
   if !m.envOk || !m.shapeOk || m.panicked then m else
   match e with
   | .inp i => match ctxOfC m.cs with
-    | some c => if legalIn sh m.g.ph c i then { m with g := m.g.onIn (opHeight m.cs) i, cs := .op :: m.cs } else { m with envOk := false }
+    | some c => if legalInX sh m.g.ph c i then
+        { m with g := m.g.onIn (opHeight m.cs) i, cs := .op :: m.cs, cross := m.cross + (if isCross sh m.g.ph c i then 1 else 0) }
+      else { m with envOk := false }
     | none => { m with shapeOk := false }
   | .out o => match m.cs with
     | .op :: _ => { m with g := m.g.onOut sh o, cs := .env o :: m.cs }
